@@ -333,7 +333,7 @@ func probeHistory(rng *hlib.Rand, p *probeProc, probe *pkgData, idx int) *histOu
 				pl := rng.Intn(12)
 				pb := make([]byte, pl)
 				for i := range pb {
-					pb[i] = []byte{0, 1, 2, 3, 3, 4, 4, 4, 5, 5, 6, 7, 7, 7, 9, 9, 10, 11, 11, 12, 13, 13, 14, 14, 15}[rng.Intn(25)]
+					pb[i] = []byte{0, 1, 2, 3, 3, 4, 4, 4, 5, 5, 6, 7, 7, 7, 9, 9, 10, 11, 11, 12, 13, 13, 14, 14, 15, 15, 15, 16, 16, 17}[rng.Intn(30)]
 				}
 				lastProg = hlib.Hex(pb)
 			}
